@@ -185,14 +185,29 @@ func solveObligation2(o *Obligation, dir string, timeoutS int, needAgree int, wh
 	got := 0
 	unsatBy := []string{}
 	final := "unknown"
+	var grace <-chan time.Time
+loop:
 	for got < len(which) {
-		a := <-ch
+		var a ans
+		select {
+		case a = <-ch:
+		case <-grace:
+			// a second opinion did not arrive within the grace period after the first unsat
+			break loop
+		}
 		got++
 		outputs = append(outputs, fmt.Sprintf("[%s %.2fs] %s", a.solver, a.secs, strings.TrimSpace(firstLines(a.out, 3))))
 		if a.r == "unsat" {
 			unsatBy = append(unsatBy, a.solver)
 			if len(unsatBy) == 1 {
 				res.Backend, res.Secs = a.solver, a.secs
+				if needAgree > 1 {
+					g := time.Duration(3*a.secs+5) * time.Second
+					if g > 20*time.Second {
+						g = 20 * time.Second
+					}
+					grace = time.After(g)
+				}
 			}
 			if len(unsatBy) >= needAgree {
 				final = "unsat"
